@@ -174,12 +174,16 @@ func (ip *Inode) Resize(atxn *alloctxn.AllocTxn, sz uint64) bool {
 		ip.Write(atxn, sz, n, make([]byte, n))
 	}
 	oldsz := util.RoundUp(ip.Size, disk.BlockSize)
+	// an earlier shrink that is not finished still has blocks above oldsz to free
+	unfinished := ip.ShrinkSize > oldsz
 	util.DPrintf(5, "Resize %v to sz %d\n", oldsz, newSz)
 	ip.Size = newSz
 	newSz = util.RoundUp(sz, disk.BlockSize)
 	if newSz < oldsz {
-		ip.ShrinkSize = oldsz
-	} else {
+		if !unfinished {
+			ip.ShrinkSize = oldsz
+		}
+	} else if !unfinished || newSz >= ip.ShrinkSize {
 		ip.ShrinkSize = newSz
 	}
 	ip.WriteInode(atxn)
